@@ -1008,6 +1008,7 @@ pub fn replay(prop: &str, _label: &str, path: &Path) -> Result<CheckResult, Stri
   let spec = spec_of(prop).ok_or_else(|| format!("no spec for {}", prop))?;
   let (_, _, case): (_, _, Case) = driver::load_replay(path)?;
   if prop == "C20" && _label == "roles" { return Ok(super::roles::replay_roles(&case)); }
+  if prop == "C06" && _label == "after-aborts" { return Ok(super::inject::replay_c06_after_aborts(&case)); }
   if prop == "C20" && _label == "after-aborts" { return Ok(driver::guarded(|| super::roles::check_after_aborts(&case, &mut Stats::dummy()))); }
   if prop == "C20" && _label == "guarded" { return Ok(driver::guarded(|| super::diag::check(&case, super::diag::Mode::C20, &mut Stats::dummy()))); }
   if prop == "C19" && _label == "diag" { return Ok(driver::guarded(|| super::diag::check(&case, super::diag::Mode::C19, &mut Stats::dummy()))); }
